@@ -60,7 +60,7 @@ def check_dump(ctx, hooks, c, stats):
             stats["model_wrong"].append(c["text"].decode("latin-1"))
         return True
     model = [loc4(r) for r in c["m"]] if c["m"] else exp
-    case = {"items": c["p"], "text": c["text"].decode("latin-1"), "rc": rc, "stderr": err[-300:],
+    case = {"items": c["p"], "text": c["text"].decode("latin-1"), "rc": rc, "stderr": err[-300:], "expected_tokens": [list(e) for e in exp],
             "first_difference": next(({"expected": e, "observed": o} for e, o in zip(exp, obs) if e != o), {"expected_tokens": len(exp), "observed_tokens": len(obs)}),
             "fired": fired}
     report(ctx, c, fired, rc == 0 and obs == model, "loc:token" if rc == 0 else "loc:rejected",
@@ -185,3 +185,20 @@ def run(ctx):
         ctx.cov["exhaustive"] = True
     finally:
         lexlib.cleanup_cfgs(ctx)
+
+
+def replay(ctx, path):
+    """Re-run one stored case: prints the declarative expectation and what the current binary reports."""
+    d = json.load(open(path))
+    c = d["case"]
+    text = c["text"].encode("latin-1")
+    if "violation" in c:
+        rc, out, err = vlib.cproc(lexlib.private_build(ctx, "plain"), text)
+        first = err.split("\n", 1)[0]
+        print("items %s + %s\nexpected %s (token %s)\nobserved rc=%d %s" % (c["items"], c["violation"], c["expected"], c["named_token"], rc, first))
+        m = lexlib.DIAG.match(first)
+        return 0 if rc == 1 and m and "%s:%s" % (m.group(1), m.group(2)) == c["expected"] else 1
+    rc, toks, err = lexlib.dump_tokens(lexlib.private_build(ctx, "hooks"), text)
+    obs = [[k, s, f, ln] for k, s, sp, ln, col, f in toks if k != "TNEWLINE"]
+    print("items %s\nexpected %s\nobserved rc=%d %s %s" % (c["items"], c.get("expected_tokens"), rc, obs, err.strip()))
+    return 0 if rc == 0 and obs == c.get("expected_tokens") else 1
